@@ -186,3 +186,30 @@ void h_FuncCHARFROMSTR(void) {
     }
 }
 
+
+/* SUBSTR(s, start, count): manual: "count 0 = up to the end; a start position >= the length gives the empty string; a start
+ * position smaller than zero is treated as zero".  Checked for every start/count (64-bit) on strings of up to 12 characters. */
+void h_FuncSUBSTR(void) {
+    long long start, count, s, n; size_t len, k;
+    mk_args(TempString);
+    mk_str(&args[0].Contents.str, 12);
+    args[1].Typ = TempInt; VND(args[1].Contents.Int, i64); args[2].Typ = TempInt; VND(args[2].Contents.Int, i64);
+    start = args[1].Contents.Int; count = args[2].Contents.Int; len = args[0].Contents.str.len;
+    VASSUME(count >= 0);                                      /* a negative count is not defined by the manual (memory safety is still checked without this in h_FuncSUBSTR_safe) */
+    s = start < 0 ? 0 : start;
+    n = (s >= (long long)len) ? 0 : (long long)len - s;
+    if (count != 0 && count < n) n = count;
+    FuncSUBSTR(&res, args, 3);
+    VPOST(res.Typ == TempString && (long long)res.Contents.str.len == n, "C08: SUBSTR extracts count characters from start (0 = to the end; start < 0 counts as 0; start >= length gives the empty string)");
+    VND(k, size_t); VASSUME(k < 16 && (long long)k < n);
+    VPOST(res.Contents.str.p_str[k] == args[0].Contents.str.p_str[s + (long long)k], "C08: SUBSTR result character k is source character start + k");
+    VREACH("end");
+}
+void h_FuncSUBSTR_safe(void) {
+    mk_args(TempString);
+    mk_str(&args[0].Contents.str, 12);
+    args[1].Typ = TempInt; VND(args[1].Contents.Int, i64); args[2].Typ = TempInt; VND(args[2].Contents.Int, i64);
+    FuncSUBSTR(&res, args, 3);                                /* every start / count: no access outside the source string (CBMC pointer checks) */
+    VPOST(res.Typ == TempString && res.Contents.str.len <= args[0].Contents.str.len, "C03: SUBSTR never yields more than the source holds, whatever the arguments");
+    VREACH("end");
+}
